@@ -244,7 +244,7 @@ func planDemandsWrite(g *GroupCtx) string {
 		if p.BandDontCare != "" {
 			return ""
 		}
-		if len(p.ForceReap) > 0 && cloudWouldAccept(g, len(p.ForceReap)) {
+		if len(p.ForceReap) > 0 && cloudWouldAccept(g, len(p.ForceReap)) && allMembers(g, p.ForceReap) {
 			return "force-reap"
 		}
 		if (p.Band == "fast" || p.Band == "slow") && p.Taints > 0 && p.Starve == oracle.MustNot && p.Age == oracle.MustNot {
@@ -255,6 +255,18 @@ func planDemandsWrite(g *GroupCtx) string {
 		}
 	}
 	return ""
+}
+
+// allMembers: every named view node is backed by an instance the cloud group lists (a Node that outlives its
+// instance is refused by the provider before any call).
+func allMembers(g *GroupCtx, names []string) bool {
+	for _, name := range names {
+		n := g.View.Node(name)
+		if n == nil || g.Cache == nil || !g.Cache.Has(n.Spec.ProviderID) {
+			return false
+		}
+	}
+	return true
 }
 
 func cloudWouldAccept(g *GroupCtx, n int) bool {
